@@ -113,7 +113,7 @@ func c15Probe(maxLen int) func(w *mintops.W) {
 	}
 }
 
-func c15Specs(quick bool) []*bfs.Spec {
+func c15OwnSpecs(quick bool) []*bfs.Spec {
 	if quick {
 		return []*bfs.Spec{{Prop: "C15", Name: "C15-seq-q", Cfg: mintops.Config{Fee: 0}, Init: []string{"fund|8,8,8"}, Menu: c15Menu, Probe: c15Probe(2), Depth: 4}}
 	}
@@ -126,7 +126,7 @@ func c15Specs(quick bool) []*bfs.Spec {
 var c15All = specMap(c15Specs(true), c15Specs(false))
 
 func init() {
-	register(&Prop{ID: "C15", Level: "model_checking", QuickBudget: 100 * time.Second, ThoroughBudget: 25 * time.Minute,
+	register(&Prop{ID: "C15", Level: "model_checking", QuickBudget: 300 * time.Second, ThoroughBudget: 25 * time.Minute,
 		Run: func(c *rt.Ctx) {
 			c.Cov["rule"] = "E3: every history up to the depth bound over {swap (plain / with witness / two inputs), melt quote (external, internal), melt x {Succeeded, Pending, Failed->NotFound, error->Succeeded}, poll / state check x {Succeeded, Failed}, mint quote, settle, mint (fresh, same outputs), rotate, restart} over 3 proofs, 2 mint quotes, 2 melt quotes; in every distinct state ProofsStateCheck is asked every sequence of length 1..L over {Y of each tracked proof, unknown point, not-a-point, non-hex} and RestoreSignatures every sequence of length 1..L over {signed B_, refused B_, latest signed B_, unknown B_, malformed}, through the Go API and the HTTP handler, and compared with the reference model that is fed only from responses; melts also with an input that carries a witness (settled directly and through a later poll); in every state one whole-alphabet query per endpoint is repeated with a storage error injected at each of its read calls: the answer must be an error or identical to the fault-free one"
 			runSpecs(c, c15Specs(c.Quick()))
@@ -134,4 +134,9 @@ func init() {
 		Worker: bfs.Worker(c15All),
 		Replay: func(p string) int { return bfs.ReplayFile("C15", c15All, p) },
 	})
+}
+
+// c15Specs: the property's own searches plus the shallow search over the union of all mint-level menus (seqcommon.go).
+func c15Specs(quick bool) []*bfs.Spec {
+	return append(c15OwnSpecs(quick), unionSpecs("C15", c15Probe(2), quick)...)
 }
